@@ -258,18 +258,42 @@ func (c *c24Case) pushStatus(st api.SyncStatus) {
 // genUpdate draws one upstream update and records it in the model.
 func (c *c24Case) genUpdate(t *rapid.T) (api.Update, string) {
 	idx := rapid.IntRange(0, c24SentinelIdx-1).Draw(t, "key")
-	kind := rapid.SampledFrom([]string{"set", "set", "set", "repeat", "repeat", "del", "del", "nilNew", "nilUpd"}).Draw(t, "kind")
+	kind := rapid.SampledFrom([]string{"set", "set", "set", "repeat", "repeat", "del", "del", "nilNew", "nilUpd", "revert"}).Draw(t, "kind")
+	return c.mkUpdate(idx, kind, 0)
+}
+
+// mkUpdate builds one upstream update of the given kind for key idx and records it.  Kinds: set (a
+// fresh value), setTag (the value identified by tag, i.e. a value this key had before), revert (the
+// value the key had before its current one, if any, else set), repeat (current value, new
+// revision), del, nilNew / nilUpd (validation failures: nil value with New / Updated type).
+func (c *c24Case) mkUpdate(idx int, kind string, tag int) (api.Update, string) {
 	cur, present := c.model[idx]
 	if kind == "repeat" && !present {
 		kind = "set"
+	}
+	if kind == "revert" {
+		// Most recent earlier value of this key that differs from the current one.
+		kind = "set"
+		for i := len(c.byKey[idx]) - 1; i >= 0; i-- {
+			if e := c.byKey[idx][i]; !e.del && (!present || e.tag != cur) {
+				kind, tag = "setTag", e.tag
+				break
+			}
+		}
 	}
 	c.pos++
 	c.rev++
 	e := c24Event{pos: c.pos, idx: idx}
 	u := api.Update{KVPair: model.KVPair{Key: c24Keys[idx], Revision: strconv.Itoa(c.rev)}}
+	note := ""
 	switch kind {
-	case "set":
+	case "set", "setTag":
 		e.tag = c.pos
+		if kind == "setTag" {
+			e.tag = tag
+			note = "(earlier value)"
+			c.classes["value-returns-to-earlier-value"] = true
+		}
 		u.Value = c24Value(idx, e.tag, c.rev)
 		u.UpdateType = api.UpdateTypeKVNew
 		if present {
@@ -282,6 +306,7 @@ func (c *c24Case) genUpdate(t *rapid.T) (api.Update, string) {
 		u.Value = c24Value(idx, cur, c.rev)
 		u.UpdateType = api.UpdateTypeKVUpdated
 		c.classes["noop-repeat"] = true
+		note = "(repeat)"
 	case "del":
 		e.del = true
 		u.UpdateType = api.UpdateTypeKVDeleted
@@ -298,16 +323,56 @@ func (c *c24Case) genUpdate(t *rapid.T) (api.Update, string) {
 		}
 		c.classes["validation-nil"] = true
 		delete(c.model, idx)
+	default:
+		panic("unknown update kind " + kind)
 	}
 	c.events = append(c.events, e)
 	c.byKey[idx] = append(c.byKey[idx], e)
-	d := fmt.Sprintf("%d:%s=t%d", e.pos, c24KeyNames[idx], e.tag)
+	d := fmt.Sprintf("%d:%s=t%d%s", e.pos, c24KeyNames[idx], e.tag, note)
 	if e.del {
 		d = fmt.Sprintf("%d:%s=<nil>(%v)", e.pos, c24KeyNames[idx], u.UpdateType)
-	} else if kind == "repeat" {
-		d += "(repeat)"
 	}
 	return u, d
+}
+
+// genFlap builds one OnUpdates slice of at most maxLen updates in which key idx (currently holding
+// the value it had when the cache was last quiescent) leaves that value and comes back to it:
+// set(other) .. set(published);  delete .. re-create(published);  other, published, other, published.
+// Unrelated updates may sit in between.
+func (c *c24Case) genFlap(t *rapid.T, idx, maxLen int) ([]api.Update, []string) {
+	published := c.model[idx]
+	var us []api.Update
+	var desc []string
+	add := func(u api.Update, d string) { us = append(us, u); desc = append(desc, d) }
+	filler := func() {
+		if len(us) < maxLen-1 && rapid.IntRange(0, 2).Draw(t, "filler") == 0 {
+			other := rapid.IntRange(0, c24SentinelIdx-1).Filter(func(i int) bool { return i != idx }).Draw(t, "fillerKey")
+			add(c.mkUpdate(other, rapid.SampledFrom([]string{"set", "del", "repeat"}).Draw(t, "fillerKind"), 0))
+		}
+	}
+	shape := "away-back"
+	if maxLen >= 4 {
+		shape = rapid.SampledFrom([]string{"away-back", "away-back", "delete-recreate", "away-back-away-back"}).Draw(t, "flapShape")
+	} else {
+		shape = rapid.SampledFrom([]string{"away-back", "away-back", "delete-recreate"}).Draw(t, "flapShape")
+	}
+	switch shape {
+	case "away-back":
+		add(c.mkUpdate(idx, "set", 0))
+		filler()
+		add(c.mkUpdate(idx, "setTag", published))
+	case "delete-recreate":
+		add(c.mkUpdate(idx, rapid.SampledFrom([]string{"del", "nilUpd"}).Draw(t, "flapDelete"), 0))
+		filler()
+		add(c.mkUpdate(idx, "setTag", published))
+	case "away-back-away-back":
+		add(c.mkUpdate(idx, "set", 0))
+		other := c.model[idx]
+		add(c.mkUpdate(idx, "setTag", published))
+		add(c.mkUpdate(idx, "setTag", other))
+		add(c.mkUpdate(idx, "setTag", published))
+	}
+	return us, desc
 }
 
 // sentinel is a deletion of a key that never exists: the cache passes every deletion through
@@ -393,47 +458,52 @@ func (c *c24Case) join(cc *c24Crumb) *c24Client {
 			c.fail("crumb %d snapshot contains %s twice", cc.crumb.SequenceNumber, c24KeyNames[o.idx])
 		}
 		cl.view[o.idx] = o.tag
-		cl.lo[o.idx] = o.tag
+		// Lower bound of the upstream position this snapshot entry can stand for: the first time
+		// upstream sent that value.
+		for _, e := range c.byKey[o.idx] {
+			if !e.del && e.tag == o.tag {
+				cl.lo[o.idx] = e.pos
+				break
+			}
+		}
 	}
 	return cl
 }
 
+// apply feeds one notification to a client and checks clause 2: the client's observations for a key
+// must be matchable, in order, to upstream events of that key carrying the same value (a value may
+// legitimately come back when upstream sets it again).  Greedy earliest matching is the most
+// permissive, so a failure to match is a genuine "older state after newer".
 func (c *c24Case) apply(cl *c24Client, o c24Obs, seq uint64) {
 	name := c24KeyNames[o.idx]
-	if !o.del {
-		if o.tag < cl.lo[o.idx] {
-			c.fail("client joined at crumb %d: at crumb %d it receives %s=t%d after it had already reached upstream position %d for that key (older value after newer)",
-				cl.joinSeq, seq, name, o.tag, cl.lo[o.idx])
-		}
-		if _, held := cl.view[o.idx]; held && o.idx != c24SentinelIdx && cl.joinSeq > 0 {
-			c.overwriteAfterJoin = true
-		}
-		cl.lo[o.idx] = o.tag
-		cl.loDel[o.idx] = false
-		cl.view[o.idx] = o.tag
-		return
-	}
-	// A deletion: match it to the earliest upstream deletion of this key that is not older than
-	// what the client has reached.
 	matched := -1
 	for _, e := range c.byKey[o.idx] {
-		if !e.del {
-			continue
-		}
-		if e.pos > cl.lo[o.idx] || (e.pos == cl.lo[o.idx] && cl.loDel[o.idx]) {
+		if e.pos >= cl.lo[o.idx] && e.del == o.del && (o.del || e.tag == o.tag) {
 			matched = e.pos
 			break
 		}
 	}
+	_, held := cl.view[o.idx]
+	if !o.del {
+		if matched < 0 {
+			c.fail("client joined at crumb %d: at crumb %d it receives %s=t%d after it had already reached upstream position %d for that key, and upstream did not send that value at or after that position (older value after newer)",
+				cl.joinSeq, seq, name, o.tag, cl.lo[o.idx])
+		}
+		if held && o.idx != c24SentinelIdx && cl.joinSeq > 0 {
+			c.overwriteAfterJoin = true
+		}
+		cl.lo[o.idx] = matched
+		cl.view[o.idx] = o.tag
+		return
+	}
 	if matched < 0 {
-		c.fail("client joined at crumb %d: at crumb %d it receives a deletion of %s although it had already reached upstream position %d for that key and no later deletion was sent (older state after newer)",
+		c.fail("client joined at crumb %d: at crumb %d it receives a deletion of %s although it had already reached upstream position %d for that key and no deletion was sent at or after that position (older state after newer)",
 			cl.joinSeq, seq, name, cl.lo[o.idx])
 	}
-	if _, held := cl.view[o.idx]; held && cl.joinSeq > 0 {
+	if held && cl.joinSeq > 0 {
 		c.overwriteAfterJoin = true
 	}
 	cl.lo[o.idx] = matched
-	cl.loDel[o.idx] = true
 	delete(cl.view, o.idx)
 }
 
@@ -468,26 +538,34 @@ func (c *c24Case) checkInSync(cl *c24Client, cc *c24Crumb) {
 		if c.statusBeforeRound != api.InSync {
 			nontriv = true
 		}
-		need := last.pos
-		if !last.del {
-			need = last.tag
-		}
-		if x, held := cl.view[idx]; held {
-			if x < need {
-				c.fail("client joined at crumb %d is told InSync at crumb %d holding %s=t%d, but upstream reported InSync after %d updates, when %s was already at position %d",
-					cl.joinSeq, cc.crumb.SequenceNumber, c24KeyNames[idx], x, p, c24KeyNames[idx], need)
+		// The key reached the state it had at the InSync call at position `need`: the start of the
+		// run of events (repeats, repeated deletes) that leave it in that state.
+		evs := c.byKey[idx]
+		li := 0
+		for i := range evs {
+			if &evs[i] == last {
+				li = i
 			}
-			continue
 		}
+		need := last.pos
+		for i := li - 1; i >= 0 && evs[i].del == last.del && (last.del || evs[i].tag == last.tag); i-- {
+			need = evs[i].pos
+		}
+		// The client's state for the key must be one that upstream produced at or after `need`.
+		x, held := cl.view[idx]
 		ok := false
-		for _, e := range c.byKey[idx] {
-			if e.del && e.pos >= need {
+		for _, e := range evs {
+			if e.pos >= need && e.del == !held && (!held || e.tag == x) {
 				ok = true
 				break
 			}
 		}
+		if !ok && held {
+			c.fail("client joined at crumb %d is told InSync at crumb %d holding %s=t%d, but upstream reported InSync after %d updates, when %s had already moved on (at position %d) and never returned to that value",
+				cl.joinSeq, cc.crumb.SequenceNumber, c24KeyNames[idx], x, p, c24KeyNames[idx], need)
+		}
 		if !ok {
-			c.fail("client joined at crumb %d is told InSync at crumb %d without %s, but upstream reported InSync after %d updates, when %s=t%d was present and never deleted since",
+			c.fail("client joined at crumb %d is told InSync at crumb %d without %s, but upstream reported InSync after %d updates, when %s was present (since position %d) and it was not deleted at or after that",
 				cl.joinSeq, cc.crumb.SequenceNumber, c24KeyNames[idx], p, c24KeyNames[idx], need)
 		}
 	}
@@ -539,7 +617,7 @@ func (c *c24Case) checkConverged() {
 func TestVerifC24SnapCache(t *testing.T) {
 	ev.Quiet()
 	rec := ev.New("C24", "snapcache",
-		"rapid-generated rounds of upstream input to the real snapshot cache (MaxBatchSize 1..4): OnUpdates slices of 1..6 updates (set / same-value-new-revision repeat / delete / delete of unknown key / nil-valued validation failure; HostConfig string values, WorkloadEndpoint structs, v3 Node resources) interleaved with status changes; each round ends with a sentinel update; prefill mode (goroutine stopped while the round is queued: deterministic batching) or live mode; one simulated client per crumb (= every join point) applying snapshot then deltas. Non-trivial = a client that joined at a non-initial crumb later had a held key overwritten or deleted by a delta AND the in-sync rule was evaluated for a status that became InSync in that round with >=1 key constraint; distinct = distinct (mode,batch size,round item shapes)",
+		"rapid-generated rounds of upstream input to the real snapshot cache (MaxBatchSize 1..6): OnUpdates slices of 1..6 updates (set / return to an earlier value, incl. by construction a key leaving and returning to its published value within one breadcrumb / same-value-new-revision repeat / delete / delete of unknown key / nil-valued validation failure; HostConfig string values, WorkloadEndpoint structs, v3 Node resources) interleaved with status changes; each round ends with a sentinel update; prefill mode (goroutine stopped while the round is queued: deterministic batching) or live mode; one simulated client per crumb (= every join point) applying snapshot then deltas. Non-trivial = a client that joined at a non-initial crumb later had a held key overwritten or deleted by a delta AND the in-sync rule was evaluated for a status that became InSync in that round with >=1 key constraint; distinct = distinct (mode,batch size,round item shapes)",
 		"the crumb carrying a round's sentinel delta is the last crumb of that round (the cache processes its input channel in order)",
 		"revision / resourceVersion-only changes are not part of the compared view (the cache squashes them by design)")
 	defer rec.Write()
@@ -549,7 +627,7 @@ func TestVerifC24SnapCache(t *testing.T) {
 		pathIdx[p] = i
 	}
 	rapid.Check(t, func(t *rapid.T) {
-		maxBatch := rapid.IntRange(1, 4).Draw(t, "maxBatchSize")
+		maxBatch := rapid.IntRange(1, 6).Draw(t, "maxBatchSize")
 		live := rapid.IntRange(0, 3).Draw(t, "liveMode") == 0
 		c := &c24Case{
 			t: t, paths: paths, pathIdx: pathIdx,
@@ -584,7 +662,29 @@ func TestVerifC24SnapCache(t *testing.T) {
 			}
 			nItems := rapid.IntRange(0, maxItems).Draw(t, "items")
 			rs := ""
+			// A key that holds a published value (the cache was quiescent at the end of the last
+			// round) leaves it and returns to it within the first OnUpdates call of this round.  In
+			// prefill mode with len <= MaxBatchSize the whole slice lands in one breadcrumb.
+			var flapKeys []int
+			for idx := 0; idx < c24SentinelIdx; idx++ {
+				if _, ok := c.model[idx]; ok {
+					flapKeys = append(flapKeys, idx)
+				}
+			}
+			flapFirst := nItems > 0 && maxBatch >= 2 && len(flapKeys) > 0 && rapid.IntRange(0, 2).Draw(t, "flapFirst") == 0
 			for i := 0; i < nItems; i++ {
+				if i == 0 && flapFirst {
+					idx := rapid.SampledFrom(flapKeys).Draw(t, "flapKey")
+					us, desc := c.genFlap(t, idx, maxBatch)
+					c.pushUpdates(us, desc)
+					rs += fmt.Sprintf("F%d", len(us))
+					if !live {
+						c.classes["key-flaps-back-to-published-value-within-one-crumb"] = true
+					} else {
+						c.classes["key-flaps-back-to-published-value-within-one-call"] = true
+					}
+					continue
+				}
 				if rapid.IntRange(0, 3).Draw(t, "isStatus") == 0 {
 					st := rapid.SampledFrom([]api.SyncStatus{api.InSync, api.InSync, api.ResyncInProgress, api.WaitForDatastore}).Draw(t, "status")
 					c.pushStatus(st)
